@@ -46,6 +46,7 @@ class Tracer(object):
         self.el2id = {}        # id(real ElementTree element / DOM node) -> vid
         self.keep = []
         self.alen = {}         # etree: number of attributes already accounted for, per vid
+        self.pending_doctype = None
         self.next = 1
 
     # ---- registration ----
@@ -287,7 +288,9 @@ def install():
         if t == Node.COMMENT_NODE:
             T.emit("new", c=vid, k="comment", d=enc(el.data))
         elif t == Node.DOCUMENT_TYPE_NODE:
-            T.emit("new", c=vid, k="doctype", n=enc(el.name), p=enc(el.publicId), q=enc(el.systemId))
+            tok = T.pending_doctype or {"name": el.name, "publicId": el.publicId, "systemId": el.systemId}
+            T.pending_doctype = None                      # what insertDoctype was ASKED to create (minidom may keep less)
+            T.emit("new", c=vid, k="doctype", n=enc(tok["name"]), p=enc(tok["publicId"]), q=enc(tok["systemId"]))
         elif t == Node.DOCUMENT_FRAGMENT_NODE:
             T.emit("new", c=vid, k="frag")
         else:
@@ -318,6 +321,14 @@ def install():
     wrap(dm.AttrList, "__setitem__", "dom",
          lambda s, a, kw, rv, exc: T.emit("setattr", s=T.el2id.get(id(s.element), -1), a=[attr_rec(a[0], a[1])], exc=exc))
     wrap(dm.TreeBuilder, "appendChild", "dom", lambda s, a, kw, rv, exc: T.emit("append", s=1, c=V(a[0]), exc=exc))
+
+    orig_doctype = dm.TreeBuilder.insertDoctype
+
+    def insertDoctype(self, token):
+        if T.on and T.kind == "dom":
+            T.pending_doctype = token
+        return orig_doctype(self, token)
+    dm.TreeBuilder.insertDoctype = insertDoctype
 
     # ---------------- one recording per TreeBuilder.reset() ----------------
     for mod, kind in ((em, "etree"), (dm, "dom")):
@@ -506,11 +517,31 @@ class Rig(object):
             self.node(c["s"]).reparentChildren(self.node(c["c"]))
         elif op == "clone":
             self.node(c["s"]).cloneNode()
+        elif op == "setattr":
+            self.node(c["s"]).attributes[dec(c["a"][0]["q"])] = dec(c["a"][0]["v"])
         else:
             raise ValueError(op)
 
 
 CALL_FIELDS = ("op", "s", "c", "r", "d", "k", "ns", "n", "a", "p", "q")
+
+
+class Timeout(BaseException):
+    """not an Exception: the code under test must not be able to swallow it"""
+
+
+def with_timeout(fn, secs=20):
+    import signal
+
+    def handler(sig, frm):
+        raise Timeout()
+    old = signal.signal(signal.SIGALRM, handler)
+    signal.alarm(secs)
+    try:
+        return fn()
+    finally:
+        signal.alarm(0)
+        signal.signal(signal.SIGALRM, old)
 
 
 def slim(ev):
@@ -520,16 +551,21 @@ def slim(ev):
 def replay_behaviour(rec, kind):
     """run one exported MC_TreeStore behaviour on the real classes; returns None or a description of the difference"""
     exp = rec["e"] if kind == "etree" else rec["d"]
+
+    def go():
+        rig = Rig(kind, rec["nsOn"])
+        for step in rec["hist"]:
+            if rec["mode"] == "parser":
+                rig.client(step)
+            else:
+                rig.raw(step)
+            T.poll()
     with recording(kind):
         exc = ""
         try:
-            rig = Rig(kind, rec["nsOn"])
-            for step in rec["hist"]:
-                if rec["mode"] == "parser":
-                    rig.client(step)
-                else:
-                    rig.raw(step)
-                T.poll()
+            with_timeout(go)
+        except Timeout:
+            exc = "Timeout"
         except Exception as e:
             exc = type(e).__name__
         T.poll()
